@@ -189,9 +189,7 @@ func (m *monitor) guard(format string, h historySpec, sel, target, what string, 
 	defer func() {
 		if p := recover(); p != nil {
 			ok = false
-			st := make([]byte, 8<<10)
 			m.violate(format, h, sel, target, fmt.Sprintf("panic(%s@%s)", what, ksrig.FaultPanicSite(stackOf())), map[string]interface{}{"panic": fmt.Sprint(p)})
-			_ = st
 		}
 	}()
 	f()
@@ -206,8 +204,6 @@ type expectation struct {
 	files   map[string][]byte       // v1 only: public files that must exist with this content (no getter reads them alone)
 	note    string
 }
-
-func single(v []byte) ksdump.Entry { return ksdump.Entry{Vals: [][]byte{v}} }
 
 // expectV1 derives the expectation from the source dump and the documented meaning of the selection.
 func expectV1(src *ksdump.Dump, h historySpec, sel selection, ids []keystore.ExportID, twoDirs bool) expectation {
@@ -827,7 +823,6 @@ func (m *monitor) v2Delegates(h historySpec, src *v2Store, srcDump *ksdump.Dump)
 		first := h.clients[0].id
 		must(ksrig.GenClient(tgt.ks, first))
 		before := tgt.dump(allIDs)
-		rawBefore := tgt.raw()
 		tgt.open()
 		var ierr error
 		if !m.guard(format, h, sel.name, dec.name, "import", func() {
@@ -875,7 +870,6 @@ func (m *monitor) v2Delegates(h historySpec, src *v2Store, srcDump *ksdump.Dump)
 					m.violate(format, h, sel.name, dec.name, fmt.Sprintf("refused-import-changed-existing-ring(%s)", entryKind(n)), map[string]interface{}{"before": before.Render(), "after": after.Render()})
 				}
 			}
-			_ = rawBefore
 		}
 	}
 }
